@@ -9,7 +9,7 @@ from ..monitors import bits_equal
 
 PID = 'C02'
 LEVEL = 'exploration'
-RULE = ('(a) the finite table 13 types x 2 byte orders x 3 writers (asarray, asarray+append, create_array fill) '
+RULE = ('(a) the finite table 13 types x 2 byte orders x 6 writers (asarray, asarray+append, create_array fill, generator iterappend, append and iterappend of opposite-byte-order ndarrays) '
         'enumerated completely: raw file bytes compared with bytes built by struct.pack with explicit </> prefix; '
         '(b) random histories (create / append / iterappend / assign / truncate / metadata / overwrite=True '
         're-creation with other type and size) with the independent decoder evaluated after every step and compared '
@@ -18,7 +18,7 @@ RULE = ('(a) the finite table 13 types x 2 byte orders x 3 writers (asarray, asa
         'truncated), decoder and fresh handle vs model after every step. Non-trivial = a step changed the data file or descriptor; '
         'distinct by (start, dtype, byte order, op sequence) or table cell')
 EXHAUSTIVE = False
-EXHAUSTIVE_PART = '13x2 type/byte-order table x 3 writers'
+EXHAUSTIVE_PART = '13x2 type/byte-order table x 6 writers'
 ASSUMPTIONS = ['the decoder in vlib/decoder.py transcribes the documented format (docs/design.rst, README text)',
                'struct.pack is a correct reference for IEEE/two\'s-complement encodings']
 ANCHORS = ['array:asarray', 'array:Array._update_arrayinfo', 'array:Array._update_len',
@@ -46,7 +46,7 @@ def table_values(numtype):
 
 def cases(tier, seed):
     for nt, bo in COMBOS:
-        for writer in ('asarray', 'append', 'fill', 'iterappend-gen'):
+        for writer in ('asarray', 'append', 'fill', 'iterappend-gen', 'append-swapped', 'iterappend-swapped'):
             yield {'kind': 'table', 'numtype': nt, 'bo': bo, 'writer': writer}
     rng = random.Random(f'C02:{seed}')
     n = 2200 if tier == 'quick' else 30000
@@ -78,6 +78,15 @@ def run_table(case, env, res):
         elif writer == 'append':
             a = D.asarray(path, arr[:4], accessmode='r+', chunklen=2)
             a.append(arr[4:])
+        elif writer in ('append-swapped', 'iterappend-swapped'):
+            # the appended ndarrays have the same numeric type in the OPPOSITE byte order (seed C02-21); nan payloads
+            # survive because astype between byte orders is a byte swap
+            sw = dtype.newbyteorder('S') if dtype.itemsize > 1 else dtype
+            a = D.asarray(path, arr[:4], accessmode='r+', chunklen=2)
+            if writer == 'append-swapped':
+                a.append(arr[4:].astype(sw))
+            else:
+                a.iterappend(c for c in (arr[4:6].astype(sw), arr[6:].astype(sw)))
         elif writer == 'iterappend-gen':
             a = D.asarray(path, (c for c in (arr[:2], arr[2:5])), accessmode='r+')
             a.iterappend(c for c in (arr[5:6], arr[6:]))
